@@ -44,6 +44,11 @@ type hoIn struct {
 	Dir   string   `json:"dir"`
 }
 
+// hoBudget: generous time for the tool to finish a hand-off whose bytes have all been written
+func hoBudget(c *hoCase) time.Duration {
+	return 15*time.Second + time.Duration((c.N+c.StreamLen)/(1<<20))*time.Second
+}
+
 func firstDiff(a, b []byte) int {
 	n := len(a)
 	if len(b) < n {
@@ -74,7 +79,11 @@ func hoRun(in []byte) (interface{}, error) {
 	conf.Options.HttpProfile = 9320
 	conf.Options.SourceAuthType = "auth"
 	conf.Options.Id = "verif"
+	hungCases := 0
 	for ci := range cfg.Cases {
+		if hungCases >= 3 {
+			break // every further case would cost another watchdog period; three hangs are a verdict already
+		}
 		c := &cfg.Cases[ci]
 		rnd := rand.New(rand.NewSource(cfg.Seed*7919 + int64(c.Id)))
 		rdbBytes := make([]byte, c.N)
@@ -89,7 +98,7 @@ func hoRun(in []byte) (interface{}, error) {
 		if err != nil {
 			return nil, err
 		}
-		ev := tracer.Ev{"e": "handoff", "case": c.Id, "mode": c.Mode, "n": c.N, "stream_len": c.StreamLen, "pre_newlines": c.PreNewlines, "mid_newlines": c.MidNewlines,
+		ev := tracer.Ev{"e": "handoff", "hung": false, "case": c.Id, "mode": c.Mode, "n": c.N, "stream_len": c.StreamLen, "pre_newlines": c.PreNewlines, "mid_newlines": c.MidNewlines,
 			"frags": c.Frags, "announced_offset": c.Offset}
 		want := append(append([]byte{}, rdbBytes...), stream...)
 		var got []byte
@@ -126,10 +135,24 @@ func hoRun(in []byte) (interface{}, error) {
 			f.Close()
 			var rd io.Reader
 			var nsize int64
-			ab, pan := runAbortableOwn(func() {
-				r, n := run.VerifDump(addr, "", name)
-				rd, nsize = r, n
-			})
+			var ab *abortInfo
+			var pan string
+			fin := make(chan struct{})
+			go func() {
+				ab, pan = runAbortableOwn(func() {
+					r, n := run.VerifDump(addr, "", name)
+					rd, nsize = r, n
+				})
+				close(fin)
+			}()
+			select {
+			case <-fin:
+			case <-time.After(hoBudget(c)):
+				// the source has written everything long ago; the tool is still waiting for bytes
+				ev["hung"] = true
+				src.Close()
+				<-fin
+			}
 			file, _ := ioutil.ReadFile(name)
 			os.Remove(name)
 			ev["abort"] = ab != nil
@@ -156,13 +179,26 @@ func hoRun(in []byte) (interface{}, error) {
 			var full bool
 			var rid string
 			var perr error
-			ab, pan := runAbortableOwn(func() {
-				r, n, isFull, id, err := ds.VerifSendPSyncCmd(addr, "auth", "", false, "?")
-				if r != nil {
-					rd = r
-				}
-				nsize, full, rid, perr = n, isFull, id, err
-			})
+			var ab *abortInfo
+			var pan string
+			fin := make(chan struct{})
+			go func() {
+				ab, pan = runAbortableOwn(func() {
+					r, n, isFull, id, err := ds.VerifSendPSyncCmd(addr, "auth", "", false, "?")
+					if r != nil {
+						rd = r
+					}
+					nsize, full, rid, perr = n, isFull, id, err
+				})
+				close(fin)
+			}()
+			select {
+			case <-fin:
+			case <-time.After(hoBudget(c)):
+				ev["hung"] = true
+				src.Close()
+				<-fin
+			}
 			ev["abort"] = ab != nil
 			ev["panic"] = pan
 			ev["err"] = perr != nil
@@ -178,6 +214,9 @@ func hoRun(in []byte) (interface{}, error) {
 			ev["file_len"], ev["file_diff"], ev["rest_len"], ev["rest_diff"] = 0, -1, 0, -1
 		}
 		ev["want_len"] = len(want)
+		if h, _ := ev["hung"].(bool); h {
+			hungCases++
+		}
 		tr.Emit(ev)
 		src.Close()
 	}
